@@ -1,9 +1,33 @@
 (* Properties/C18.v — Access is granted exactly when a role's policy covers every object.
-   (work in progress: witnesses first) *)
+   Only statements, closed by [exact]/short glue, each followed by Print Assumptions. *)
 From stdpp Require Import gmap.
 From Coq Require Import NArith.
-From Synnax Require Import Core.Ontology Core.Rbac.
+From Synnax Require Import Core.Ontology Core.OntologyStr Core.OntologyProofs Core.Rbac Core.RbacProofs.
 Local Open Scope N_scope.
+
+(* (1) allowRequest is the formula of the property: every requested object is covered, by
+   type (a policy object with an empty key and the object's type) or by exact identity, by
+   some policy that grants the action. *)
+Theorem C18_allow_request_spec : forall act objs ps,
+  allow_request act objs ps = true <->
+  forall o, o ∈ objs ->
+    exists p, p ∈ ps /\ act ∈ p_acts p /\
+      exists po, po ∈ p_objs p /\
+        ((is_type po = true /\ id_type po = id_type o) \/ (is_type po = false /\ po = o)).
+Proof. exact allow_request_spec. Qed.
+Print Assumptions C18_allow_request_spec.
+
+(* (2) For every well-formed configuration and every request: Enforce allows exactly when the
+   subject exists and every object is covered by a live policy (one with a table row) that is
+   a "parent"-child of a role which is a "parent" of the subject; an existing subject is
+   otherwise denied, an unknown subject fails with NotFound (denied). *)
+Theorem C18_enforce_iff : forall st s act objs,
+  wf (r_ont st) -> good_id s ->
+  (enforce st s act objs = Allow <-> permitted st s act objs) /\
+  (has (r_ont st) s -> enforce st s act objs = Allow \/ enforce st s act objs = Deny) /\
+  (~ has (r_ont st) s -> enforce st s act objs = Fail ENotFound).
+Proof. exact enforce_spec. Qed.
+Print Assumptions C18_enforce_iff.
 
 Definition u_1 : id := Id [117; 115; 101; 114] [117; 49].
 Definition k1 : str := [49].
@@ -21,14 +45,14 @@ Theorem C18_f12_role_delete_refuted :
 Proof. vm_compute. auto. Qed.
 Print Assumptions C18_f12_role_delete_refuted.
 
-(* F21: the pinned policy.Delete leaves the policy's ontology resource and the role -> policy
+(* F26: the pinned policy.Delete leaves the policy's ontology resource and the role -> policy
    edge: a policy created again under the same key is at once attached to its former roles *)
-Definition f21_ops : list rop :=
+Definition f26_ops : list rop :=
   [RSubject u_1; RCreateRole k1 false true; RCreatePolicy k1 (Pol [ch1] [act_r] false) true;
    RSetOnRole k1 [k1]; RAssign u_1 k1; RDeletePolicies [k1];
    RCreatePolicy k1 (Pol [ch1] [act_r] false) true].
-Theorem C18_f21_policy_delete_refuted :
-  enforce (rcur (rrun rpinned rinit f21_ops)) u_1 act_r [ch1] = Allow /\
-  enforce (rcur (rrun rfixed rinit f21_ops)) u_1 act_r [ch1] = Deny.
+Theorem C18_f26_policy_delete_refuted :
+  enforce (rcur (rrun rpinned rinit f26_ops)) u_1 act_r [ch1] = Allow /\
+  enforce (rcur (rrun rfixed rinit f26_ops)) u_1 act_r [ch1] = Deny.
 Proof. vm_compute. auto. Qed.
-Print Assumptions C18_f21_policy_delete_refuted.
+Print Assumptions C18_f26_policy_delete_refuted.
